@@ -223,6 +223,7 @@ func runC18JoinGuards(c *Ctx) {
 	} else {
 		c.touch(fnKey(fn))
 		s := newS(0)
+		s.HelperInline = smHelperFilter(p, fn)
 		paths, _ := s.Function(fn)
 		id := "param:" + fn.Params[1].Name()
 		var viol []string
@@ -439,6 +440,34 @@ func runC18JoinGuards(c *Ctx) {
 			bad = append(bad, "no loop over the seat map")
 		}
 		c.check(len(bad) == 0, "join-guards", fnKey(fn), p.FnPos(fn), "offers exactly the seats that are empty and not reserved, by their own ID", "available-seat predicate wrong", uniq(bad, 3)...)
+	}
+}
+
+// smHelperFilter: package-private, loop-free helpers of the seat manager are analysed where they
+// are used, except the role anchors the rules look for as call events (the function that
+// seats a player, the lookup, the list/count/search helpers behind the exported getters).
+func smHelperFilter(p *Prog, owner *ssa.Function) func(*ssa.Function) bool {
+	ix := p.Index()
+	anchors := map[*ssa.Function]bool{}
+	for _, fn := range p.MethodsOf(smPkg, "SeatManager") {
+		fi := ix.Info[fn]
+		if fi == nil {
+			continue
+		}
+		for _, w := range fi.Writes {
+			if guardedSeatFields[w.Key] || strings.HasPrefix(w.Key, "seat_manager.SeatManager.") {
+				anchors[fn] = true // writes seat flags or position fields directly
+			}
+		}
+		if len(findLoops(fn)) > 0 {
+			anchors[fn] = true
+		}
+	}
+	for _, sr := range findSentinels(p, smPkg) {
+		anchors[sr.Fn] = true
+	}
+	return func(f *ssa.Function) bool {
+		return privateHelper(owner, f) && !anchors[f]
 	}
 }
 
@@ -784,19 +813,32 @@ func argValidatedByCallers(c *Ctx, fn *ssa.Function, call *ssa.Call) (bool, stri
 			pidx = i
 		}
 	}
-	callers := ix.Callers(fn)
-	if len(callers) == 0 || pidx < 0 {
+	if pidx < 0 {
 		return false, ""
 	}
-	for _, cl := range callers {
+	// roots: exported methods from which fn is reachable; each is summarised with the
+	// package-private helpers in between inlined, so that the argument is seen as the root passes it
+	var roots []*ssa.Function
+	for _, m := range p.MethodsOf(smPkg, "SeatManager") {
+		if token.IsExported(m.Name()) && ix.Info[m] != nil && ix.Info[m].TCalls[fn] {
+			roots = append(roots, m)
+		}
+	}
+	if len(roots) == 0 {
+		return false, ""
+	}
+	nCalls := 0
+	for _, cl := range roots {
 		s := newSumm(p, 0)
 		s.EngineAliases = false
+		s.HelperInline = smHelperFilter(p, cl)
 		paths, _ := s.Function(cl)
 		for _, ps := range paths {
 			for _, e := range ps.Events {
 				if e.Kind != "call" || e.Fn != fn {
 					continue
 				}
+				nCalls++
 				arg := e.Args[pidx]
 				if strings.Contains(arg.String(), "getAvailableSeats(") {
 					continue
@@ -829,6 +871,9 @@ func argValidatedByCallers(c *Ctx, fn *ssa.Function, call *ssa.Call) (bool, stri
 				}
 			}
 		}
+	}
+	if nCalls == 0 {
+		return false, ""
 	}
 	return true, "range-checked against max, or drawn from the available seats"
 }
